@@ -491,6 +491,10 @@ func (f Field) GetType() string {
 	case *FixedStringFieldAttribute, *DynamicStringFieldAttribute:
 		return "string"
 	case *ObjectFieldAttribute:
+		if c.RefPacket == nil {
+			// unresolved (unknown packet, reported by ResolveDependencies) or not resolved yet
+			return c.PacketName
+		}
 		return c.RefPacket.Name
 	case *MatchFieldAttribute:
 		return "match"
